@@ -2,8 +2,8 @@
    leading toks = the tokens before the first empty token, double dash or option-like token;
    descends named l b = following the names/aliases l from the collection named reaches command b. *)
 From Coq Require Import Lia.
-From Clikit Require Import Base.Prelude Base.Res Model.Conv Model.Flags Model.Format Model.Parser Model.Resolver Proofs.ResolverLemmas
-  Proofs.ResolverAliasLemmas.
+From Clikit Require Import Base.Prelude Base.Res Model.Conv Model.Flags Model.Format Model.Parser Model.Spell Model.Resolver
+  Proofs.FormatLemmas Proofs.ResolverLemmas Proofs.ResolverAliasLemmas Proofs.SpellArgs Proofs.ParserAliasLemmas Proofs.ResolverAliasFullLemmas.
 
 (* The walk reaches the command named by the LONGEST prefix of the leading tokens that names a path:
    a prefix l1 descends to b, and the next leading token (if any) names no sub-command of b ... *)
@@ -115,9 +115,10 @@ Theorem alias_invariant : forall l names names', tree_distinct l -> respells l n
   forall cur, walk (named_of l) cur names = walk (named_of l) cur names'.
 Proof. intros l names names' Ht Hr. apply walk_respelled; assumption. Qed.
 Print Assumptions alias_invariant.
-(* PARTIAL at the level of resolve: the default sub-command below the command reached is chosen by parsing the whole
-   line, command-name tokens included; that the parser treats two spellings of the path alike is C01's subject
-   (parse_spells), not restated here.  With it given, the selections agree: *)
+(* At the level of resolve the default sub-command below the command reached is chosen by parsing the whole line,
+   command-name tokens included.  This first statement takes "the parser treats the two spellings alike" as a hypothesis
+   (named _partial for that reason; kept as it was).  alias_invariant_resolve below DISCHARGES that hypothesis for every
+   application built by build_app. *)
 Theorem alias_invariant_resolve_partial : forall a toks toks',
   tree_distinct (ap_cmds a) -> respells (ap_cmds a) (leading toks) (leading toks') ->
   (forall f len, parse f len toks = parse f len toks') ->
@@ -131,6 +132,41 @@ Proof.
   - inversion Hr as [? ? E1 E2|? b k k' r r' Hb Hk Hk' Hr' E1 E2]; [|reflexivity]. now rewrite Hpd.
 Qed.
 Print Assumptions alias_invariant_resolve_partial.
+(* The clause in full: "replacing a name on the path by any of its aliases never changes the selection" - the resolver's
+   WHOLE answer: the selected name path, the format, the parsed arguments and options, or the same error.
+   For every application built by build_app from a configuration whose arguments are constructed objects
+   (cfg_args_valid: exactly one of REQUIRED / OPTIONAL, the normal form C07 arg_normal_form proves of every Argument), with
+   distinct names and aliases among the siblings of every level (tree_distinct; necessary:
+   alias_invariant_without_distinctness_refuted), every line names ++ rest and every respelling names' of the names on
+   the path (respells: level by level any key - name or alias - of the same command; what follows the path, in names or in
+   rest, is untouched and ARBITRARY: options, arguments, a tail), both spellings made of tokens that can be command names
+   (lead_ok: not empty, not option-like; necessary: alias_must_be_a_plain_token).
+   Why the parser side holds (Proofs/ParserAliasLemmas.v parse_respelled, the statement parser_treats_spellings_alike
+   below): a command's format lists the command names of its path with their aliases (CommandConfig.build_args_format;
+   command_formats_list_the_path: every format at or below a command on the respelled path starts with the command names
+   both spellings match); DefaultArgsParser stores the leading tokens as raw text on pseudo-arguments, and
+   _insert_missing_command_names only asks CommandName.match of them before Args.set_argument drops the pseudo-arguments
+   again - so a leading token acts only through "matches the command name of its position". *)
+Theorem alias_invariant_resolve : forall cfg a names names' rest,
+  build_app cfg = Ok a -> cfg_args_valid cfg = true -> tree_distinct (ap_cmds a) ->
+  respells (ap_cmds a) names names' -> forallb lead_ok names = true -> forallb lead_ok names' = true ->
+  resolve a (names ++ rest) = resolve a (names' ++ rest).
+Proof. exact resolve_respelled. Qed.
+Print Assumptions alias_invariant_resolve.
+(* the parser side on its own: a well-formed format (SpellArgs.fmt_facts: what fmt_inv / fmt_ok give, C06) parses two
+   lines alike that differ only in their first tokens, when both spell - by name or alias, as plain tokens - the format's
+   first command names (names_ok); any leniency, any rest *)
+Theorem parser_treats_spellings_alike : forall f g A cns ks ks' len rest,
+  fmt_facts f g A cns -> names_ok cns ks = true -> names_ok cns ks' = true -> length ks = length ks' ->
+  parse f len (ks ++ rest) = parse f len (ks' ++ rest).
+Proof. intros f g A cns ks ks' len rest FF H1 H2 H3. exact (parse_respelled f g A cns FF ks ks' H1 H2 H3 len rest). Qed.
+Print Assumptions parser_treats_spellings_alike.
+(* the tree side: build_app gives every command a well-formed format that lists the command names (with aliases) of its
+   non-anonymous ancestors and its own (cn_tree, from the empty list at the top) *)
+Theorem command_formats_list_the_path : forall cfg a, build_app cfg = Ok a -> cfg_args_valid cfg = true ->
+  Forall (cn_tree []) (ap_cmds a).
+Proof. exact build_app_cn. Qed.
+Print Assumptions command_formats_list_the_path.
 (* Without distinctness the clause is FALSE of the model (and of the code: CommandCollection's alias index is last
    writer wins): siblings add[x] and del[x] - the alias x of add selects del. *)
 Theorem alias_invariant_without_distinctness_refuted :
@@ -245,3 +281,68 @@ Example one_default_instance :
   | Ok (Some (b, p)) => length (defaults_of (b_subs b)) <= 1 /\ leading [s_top; t_flag3] = leading [s_top]
   | _ => False end.
 Proof. vm_compute. split; [lia|reflexivity]. Qed.
+
+(* ---- alias_invariant_resolve on a tree with aliases at two levels and a NAMED default sub-command:
+   server [srv, s] { add [a] <v?> --flag, list [ls] (default) <w?>, del [d] }, top (default) ---- *)
+Definition s_server : str := [115;101;114;118;101;114]%N. Definition s_list : str := [108;105;115;116]%N.
+Definition s_ls : str := [108;115]%N. Definition s_w : str := [119]%N. Definition s_z : str := [122]%N.
+Definition t_flag : str := [45;45;102;108;97;103]%N.            (* --flag *)
+Definition a_w : arg := {| a_name := s_w; a_flags := arg_defaults 2; a_default := VNone |}.
+Definition cfg3 : appcfg :=
+  {| ac_opts := []; ac_args := [];
+     ac_cmds := [Cmd s_server [s_srv; s_s] false false true false [] []
+                   [Cmd s_add [s_a] false false true false [o_nov] [a_opt] [];
+                    Cmd s_list [s_ls] true false true false [] [a_w] [];
+                    Cmd s_del [s_d] false false true false [] [] []];
+                 Cmd s_top [] true false true false [] [] []] |}.
+Definition cmds3 : list bcmd := match build_app cfg3 with Ok ap => ap_cmds ap | Err _ => [] end.
+Example tree3_is_distinct : tree_distinct cmds3.
+Proof.
+  assert (forall l : list bcmd, l = [] -> tree_distinct l) as Leaf.
+  { intros l ->. constructor; [constructor|intros b []]. }
+  unfold cmds3. vm_compute build_app. constructor.
+  - unfold siblings_distinct. cbn. repeat (constructor; [cbn; intuition discriminate|]). constructor.
+  - intros b [<-|[<-|[]]]; cbn [b_subs]; [|apply Leaf; reflexivity]. constructor.
+    + unfold siblings_distinct. cbn. repeat (constructor; [cbn; intuition discriminate|]). constructor.
+    + intros b [<-|[<-|[<-|[]]]]; apply Leaf; reflexivity.
+Qed.
+Example respelled3 : respells cmds3 [s_server; s_add] [s_s; s_a] /\ respells cmds3 [s_server] [s_srv].
+Proof.
+  unfold cmds3. vm_compute build_app. split.
+  - eapply rs_step; [left; reflexivity|left; reflexivity|right; right; left; reflexivity|]. cbn [b_subs].
+    eapply rs_step; [left; reflexivity|left; reflexivity|right; left; reflexivity|]. apply rs_same.
+  - eapply rs_step; [left; reflexivity|left; reflexivity|right; left; reflexivity|]. apply rs_same.
+Qed.
+(* the hypotheses hold, the theorem applies (two levels respelled; options and an argument behind the path), and the
+   answers are what they should be: "server add z --flag" = "s a z --flag" selects server add with v = z and the flag;
+   "server" = "srv" = "s" (and with an argument behind) select the NAMED default sub-command server list *)
+Example alias_invariant_resolve_applied : forall a, build_app cfg3 = Ok a ->
+  resolve a ([s_server; s_add] ++ [s_z; t_flag]) = resolve a ([s_s; s_a] ++ [s_z; t_flag]) /\
+  resolve a ([s_server] ++ [[DASH; DASH]; s_z]) = resolve a ([s_srv] ++ [[DASH; DASH]; s_z]).
+Proof.
+  intros a Ha. assert (ap_cmds a = cmds3) as E by (unfold cmds3; now rewrite Ha).
+  pose proof tree3_is_distinct as Ht. destruct respelled3 as [R1 R2]. rewrite <- E in Ht, R1, R2.
+  split; apply (alias_invariant_resolve cfg3 a); try assumption; reflexivity.
+Qed.
+Definition selected3 (toks : list str) : res (list str * list (str * pyval) * list (str * pyval)) :=
+  do ap <- build_app cfg3; do r <- resolve ap toks; Ok (fst (fst r), ar_args (snd r), ar_opts (snd r)).
+Example alias_answers3 :
+  cfg_args_valid cfg3 = true /\
+  selected3 [s_server; s_add; s_z; t_flag] = Ok ([s_server; s_add], [([118]%N, VStr s_z)], [(s_flag, VBool true)]) /\
+  selected3 [s_s; s_a; s_z; t_flag] = selected3 [s_server; s_add; s_z; t_flag] /\
+  selected3 [s_server] = Ok ([s_server; s_list], [], []) /\ selected3 [s_srv] = selected3 [s_server] /\ selected3 [s_s] = selected3 [s_server] /\
+  selected3 [s_srv; [DASH; DASH]; s_z] = Ok ([s_server; s_list], [(s_w, VStr s_z)], []) /\
+  selected3 [s_server; s_ls; s_z] = Ok ([s_server; s_list], [(s_w, VStr s_z)], []) /\
+  selected3 [s_s; s_list; s_z] = selected3 [s_server; s_ls; s_z].
+Proof. vm_compute. repeat split. Qed.
+(* lead_ok is needed: an alias that looks like an option is no spelling of the path - the walk stops in front of it.
+   server { add [-a] }, no defaults: "server add" selects server add, "server -a" does not (NoSuchOption) *)
+Definition t_dash_a : str := [45;97]%N.
+Definition cfg4 : appcfg :=
+  {| ac_opts := []; ac_args := [];
+     ac_cmds := [Cmd s_server [] false false true false [] [] [Cmd s_add [t_dash_a] false false true false [] [] []]] |}.
+Example alias_must_be_a_plain_token :
+  lead_ok t_dash_a = false /\
+  (do ap <- build_app cfg4; do r <- resolve ap [s_server; s_add]; Ok (fst (fst r))) = Ok [s_server; s_add] /\
+  (do ap <- build_app cfg4; do r <- resolve ap [s_server; t_dash_a]; Ok (fst (fst r))) = Err NoSuchOption.
+Proof. vm_compute. repeat split. Qed.
